@@ -60,7 +60,7 @@ FF(cur, e) == IF cur = "none" THEN e ELSE cur     \* store-if-absent
 Agents(s) == DOMAIN s.ag
 Subscribed(s, ev) == {a \in Agents(s) : ev \in s.ag[a].subs}
 
-NewAgent(kind, state, err, g) == [kind |-> kind, st |-> state, subs |-> {}, flag |-> FALSE, err |-> err, gen |-> g]
+NewAgent(kind, state, err, g) == [kind |-> kind, st |-> state, subs |-> {}, flag |-> FALSE, err |-> err, gen |-> g, rid |-> 0]
 WithAgent(s, a, rec) == [s EXCEPT !.ag = [x \in DOMAIN s.ag \cup {a} |-> IF x = a THEN rec ELSE s.ag[x]]]
 WithProc(s, p, rec)  == [s EXCEPT !.procs = [x \in DOMAIN s.procs \cup {p} |-> IF x = p THEN rec ELSE s.procs[x]]]
 WithCall(s, c, rec)  == [s EXCEPT !.calls = [x \in DOMAIN s.calls \cup {c} |-> IF x = c THEN rec ELSE s.calls[x]]]
@@ -81,6 +81,7 @@ Emit(s, e) == [s EXCEPT !.tel = Append(@, e)]
 
 State0(files, lf) ==
     [ extFiles |-> files, launchFail |-> lf,
+      timeoutMs |-> 0, strictTimer |-> TRUE,   \* scenario parameters (trace validation)
       gen |-> 0,                       \* runtimeDomainGeneration
       hm |-> "free",                   \* handlerExecutionMutex owner
       pcI |-> [pc |-> "off", ctx |-> "init", err |-> ""],   \* doRuntimeDomainInit
@@ -592,7 +593,7 @@ AgentIdProblem(s, call) ==
       [] call.idc = "invalid" -> "Extension.InvalidExtensionIdentifier"
       [] call.idc = "unknown" -> "Extension.UnknownExtensionIdentifier"
       [] call.who \notin Agents(s) -> "Extension.UnknownExtensionIdentifier"
-      [] s.ag[call.who].gen # call.agen -> "Extension.UnknownExtensionIdentifier"
+      [] s.ag[call.who].rid # call.agen -> "Extension.UnknownExtensionIdentifier"   \* identifier of an earlier registration
       [] OTHER -> ""
 
 AgAfterWake(s, c, a) ==
@@ -623,13 +624,13 @@ RegisterEffect(s, c) ==
        ELSE IF n \in Agents(s) /\ s.ag[n].kind = "ext"
        THEN IF ~(call.events \subseteq {"INVOKE", "SHUTDOWN"}) THEN Answer(s, c, Res(403, "Extension.InvalidEventType"))
             ELSE IF s.ag[n].st # "Started" THEN Answer(s, c, Res(403, "Extension.InvalidExtensionState"))
-            ELSE Answer([s EXCEPT !.ag[n].st = "Registered", !.ag[n].subs = call.events,
+            ELSE Answer([s EXCEPT !.ag[n].st = "Registered", !.ag[n].subs = call.events, !.ag[n].rid = c,
                                   !.ig.extReg = GWalk(@)[1]], c, okRes)
        ELSE IF ~(call.events \subseteq {"INVOKE"}) THEN Answer(s, c, Res(403, "Extension.InvalidEventType"))
             ELSE IF ~s.regOpen THEN Answer(s, c, Res(403, "Extension.RegistrationClosed"))
             ELSE IF Cardinality(Agents(s)) >= MaxAgents THEN Answer(s, c, Res(403, "Extension.TooManyExtensions"))
             ELSE IF n \in Agents(s) THEN Answer(s, c, Res(403, "Extension.InvalidExtensionState"))
-            ELSE Answer(WithAgent(s, n, [NewAgent("int", "Registered", "", s.gen) EXCEPT !.subs = call.events]), c, okRes)
+            ELSE Answer(WithAgent(s, n, [NewAgent("int", "Registered", "", s.gen) EXCEPT !.subs = call.events, !.rid = c]), c, okRes)
 
 \* POST /extension/init/error  and  /extension/exit/error
 ExtErrorEffect(s, c) ==
@@ -682,5 +683,26 @@ ReapEn(s, c) == c \in DOMAIN s.calls /\ s.calls[c].st = "done" /\ s.calls[c].det
 ReapDo(s, c) == DropCall(s, c)
 
 IssueDo(s, c, call) == [WithCall(s, c, call) EXCEPT !.ncalls = @ + 1]
+
+----------------------------------------------------------------------------
+(* Urgency.  Every step below is taken by a goroutine of the emulator as   *)
+(* soon as it is enabled (micro- to milliseconds); the remaining steps     *)
+(* wait for the environment or for a timer.  A timer may only be observed  *)
+(* to fire when no urgent step is enabled: a stall of the emulator is not  *)
+(* explained away as "the timer happened to fire first".                   *)
+
+Urgent(s) ==
+    \/ LaunchExtEn(s) \/ LaunchRuntimeEn(s) \/ AfterRuntimeReadyEn(s) \/ AgentsReadyEn(s) \/ InitEndEn(s)
+    \/ InvokeLockEn(s) \/ InvokeInitFailedEn(s) \/ DispatchEn(s) \/ AwaitResponseEn(s)
+    \/ AwaitRuntimeBackEn(s) \/ AwaitAgentsBackEn(s) \/ InvokeReturnEn(s)
+    \/ \E c \in Callers :
+         \/ CallerReserveEn(s, c) \/ CallerAwaitInitEn(s, c) \/ CallerShutdownEn(s, c) \/ CallerShutdownDoneEn(s, c)
+         \/ CallerFastInvokeEn(s, c) \/ CallerDoneOkEn(s, c) \/ CallerDoneFailEn(s, c) \/ CallerAfterResetEn(s, c)
+    \/ ResetCancelEn(s) \/ ResetLockEn(s) \/ ResetFinishEn(s) \/ ResetClearEn(s) \/ ResetServerClearEn(s)
+    \/ ShutBeginEn(s) \/ ShutKillRuntimeNowEn(s) \/ ShutTermRuntimeEn(s) \/ ShutRuntimeExitedEn(s) \/ ShutAgentsEn(s)
+    \/ (\E p \in s.pcS.todo : ShutAgentExitedEn(s, p) \/ (ShutAgentKillEn(s, p) /\ p \notin s.shutAwait))
+    \/ ShutAgentsJoinedEn(s) \/ ShutReapedEn(s)
+    \/ (\E p \in DOMAIN s.procs : WatchRecvEn(s, p)) \/ WatchHandleEn(s) \/ WatchCancelEn(s)
+    \/ \E c \in DOMAIN s.calls : EffectEn(s, c) \/ WakeEn(s, c)
 
 =============================================================================
